@@ -8,12 +8,12 @@ TRUSTED = [
     'constants MARKET_USD_UNIT / MARKET_DECIMALS / MAX_DECIMALS / MAX_RANK compared with /repo on every run',
 ]
 UNVERIFIED = [
-    'GtState::set_order_fee_discount_factors enforcing factor <= 100% (iterator adapter: Kani unit, see C30 group); here `factors_valid` is a precondition',
+    'GtState::set_order_fee_discount_factors IS under contract (rule R23, logged: `factors.iter().all(|f| *f <= UNIT)` as an indexed loop with early exit; the array-prefix copy `&mut a[0..n]` + copy_from_slice as one glue call whose precondition is the slicing\'s panic condition): it accepts exactly one factor per rank with every factor <= 100% and preserves `factors_valid`; that `factors_valid` holds initially (zeroed table) is immediate',
     'referral discount B <= 100% is NOT enforced by any setter in the anchored code (plain store factor): it is a hypothesis of the bounds clause; for B > 100% the function is proved to fail',
     'SDK equality (crates/programs/src/utils/store.rs): see C40',
 ]
 ASSUMPTIONS = ['wf(GtState): max_rank <= 15 (established by GtState::init)']
 MANIFEST = dict(engine='verus',
-    technique='Verus contract on Store::order_fee_discount_factor and GtState::order_fee_discount_factor extracted from /repo each run + nonlinear lemma for 1-(1-A)(1-B)',
+    technique='(setter: Verus contract on GtState::set_order_fee_discount_factors) Verus contract on Store::order_fee_discount_factor and GtState::order_fee_discount_factor extracted from /repo each run + nonlinear lemma for 1-(1-A)(1-B)',
     text='Deductive proof, unbounded over rank tables with factors <= 100%, ranks and referral discounts: rank > max_rank is rejected; unreferred result is the rank factor; referred result is B + floor(A(U-B)/U), proved to lie in [max(A-1,B), U] and to equal U - (U-A)(U-B)/U rounded down by less than one unit; B > 100% makes the computation fail.',
     note='Trusted: Verus+Z3, prelude, glue wrappers, carriers as field reads. Setter-side bound and SDK equality are listed as unverified here.')
